@@ -6,17 +6,17 @@
    c01_any_interleaving every interleaving of their sections is consistent, and each pod's own
    cache entry only depends on its own handler). *)
 From Coq Require Import List ZArith Bool.
-From Verif Require Import Lib.Wire Lib.Vec2 C01.Model C01.Spec C01.Root C01.Codec.
+From Verif Require Import Lib.Wire Lib.VecN C01.Dim2 C01.Model C01.Spec C01.Root C01.Codec.
 Import ListNotations.
 Open Scope Z_scope.
 
+Local Existing Instance D2.
+
 Definition decode_conc (inp : list Z) : vec * vec * list op * list op :=
-  match inp with
-  | a :: b :: c :: d :: k :: kc :: t =>
-      let ops := dec_ops (Z.to_nat k + Z.to_nat kc) t in
-      ((a, b), (c, d), firstn (Z.to_nat k) ops, skipn (Z.to_nat k) ops)
-  | _ => (vzero, vzero, [], [])
-  end.
+  let k := Z.to_nat (nthZ inp (2 * dim)) in
+  let kc := Z.to_nat (nthZ inp (2 * dim + 1)) in
+  let ops := dec_ops (k + kc) (skipn (2 * dim + 2) inp) in
+  (dec_vec inp 0, dec_vec inp dim, firstn k ops, skipn k ops).
 
 Definition run_case (inp : list Z) : list Z :=
   let '(sm, dm, setup, conc) := decode_conc inp in
@@ -40,7 +40,7 @@ Definition prop_case (inp obs : list Z) : Z :=
   else let '(snap, leak, rest) := dec_snapshot (setup ++ conc) obs in
        if negb (leak =? 0) then 13
        else if negb (shapes_eqb (st_sh snap) (spec_shapes (st_sh (init sm dm)) (setup ++ conc))) then 14
-       else if negb (Nat.eqb (length rest) 8) then 99
+       else if negb (Nat.eqb (length rest) (4 * dim)) then 99
        else if negb (state_code snap =? 0) then state_code snap
        else if negb (benign_history (init sm dm) (setup ++ conc)) then 0
        else root_code snap (fst (dec_root rest)).
